@@ -279,7 +279,8 @@ Proof.
   destruct (len p <? _)%N; [discriminate|].
   destruct ((frag =? 1)%N && _); [discriminate|].
   match type of H with (if negb ?c then _ else _) = _ => destruct c eqn:C end; cbn [negb] in H; [|discriminate].
-  injection H as Hm. subst m. unfold hdr_end, hdr_start, hdr_plen. cbn [m_ver m_frag m_len].
+  apply (f_equal (fun r => match r with Ok x => x | _ => m end)) in H. cbv beta iota in H. rewrite <- H. clear H.
+  unfold hdr_end, hdr_start, hdr_plen. cbn [m_ver m_frag m_len].
   apply N.eqb_eq in C. unfold len in C.
   destruct (ver =? 1)%N, (frag =? 1)%N; split; lia.
 Qed.
@@ -390,3 +391,611 @@ Proof.
     + cbn [u_heap u_hist u_msgs]. split; [apply fr_advance|split; [now apply wfh_from|]].
       intros m0 Hm0. eapply mprot_fr; [apply fr_advance|now apply Hacc].
 Qed.
+
+Lemma unpack_ok h hist eff force newcap :
+  wfh h hist ->
+  let u := unpack cur h hist eff force newcap in
+  fr h hist (u_heap u) (u_hist u) /\ wfh (u_heap u) (u_hist u) /\
+  forall m, In m (u_msgs u) -> mprot (length (u_heap u)) (u_hist u) m.
+Proof.
+  intros W. cbv zeta. unfold unpack.
+  destruct (fast_cond hist (deref h eff)).
+  - cbn [cur v_clone]. unfold clone, alloc.
+    set (d := deref h eff).
+    set (data := mkS (length h) 0 (length d) (length d)).
+    destruct (decode_mem (h ++ [d]) data) as [[h2 m]| |] eqn:D.
+    + cbn [u_heap u_hist u_msgs].
+      pose proof (decode_mem_len _ _ _ _ D) as L. rewrite app_length in L. cbn [length] in L.
+      pose proof W as W'. destruct W as (W0 & Wid & W3).
+      split; [eapply fr_trans; [apply fr_alloc|eapply decode_mem_fr; exact D]|].
+      split; [eapply decode_mem_wfh; [exact D|apply wfh_grow; exact W']|].
+      intros m0 [<-|[]].
+      eapply decode_mem_mprot; [exact D| | |].
+      * rewrite app_length. cbn. lia.
+      * rewrite app_length. cbn. lia.
+      * split; [|split]; cbn [data s_id]; lia.
+    + cbn [u_heap u_hist u_msgs]. split; [apply fr_alloc|split; [now apply wfh_grow|intros m []]].
+    + cbn [u_heap u_hist u_msgs]. split; [apply fr_alloc|split; [now apply wfh_grow|intros m []]].
+  - destruct (append h hist (deref h eff) force newcap) as [h1 hist1] eqn:A.
+    destruct (append_fr _ _ _ _ _ _ _ W A) as [F1 W1].
+    destruct (scan_ok (S (s_len hist1)) h1 hist1 [] W1) as (F2 & W2 & M2).
+    + intros m [].
+    + split; [eapply fr_trans; eauto|split; auto].
+Qed.
+
+(* ================= completePack ================= *)
+Definition sprot (hl : nat) (hist : slice) (s : slice) : Prop := s_len s = 0 \/ prot hl hist s.
+Definition rprot (hl : nat) (hist : slice) (r : recs) : Prop :=
+  Forall (fun kv => Forall (sprot hl hist) (snd kv)) r.
+
+Lemma rprot_del hl hist r id : rprot hl hist r -> rprot hl hist (rec_del r id).
+Proof.
+  unfold rprot. induction r as [|[k v] r IH]; intros H; cbn [rec_del]; auto.
+  inversion H as [|x l Hx Hl]; subst. destruct (k =? id)%N; auto.
+Qed.
+
+Lemma rprot_set hl hist r id v : rprot hl hist r -> Forall (sprot hl hist) v -> rprot hl hist (rec_set r id v).
+Proof. intros H Hv. unfold rec_set. constructor; auto. now apply rprot_del. Qed.
+
+Lemma rprot_get hl hist r id v : rprot hl hist r -> rec_get r id = Some v -> Forall (sprot hl hist) v.
+Proof.
+  unfold rprot. induction r as [|[k w] r IH]; intros H G; cbn [rec_get] in G. discriminate.
+  inversion H as [|x l Hx Hl]; subst. destruct (k =? id)%N; auto. injection G as <-. exact Hx.
+Qed.
+
+Lemma sprot_repeat_nil hl hist n : Forall (sprot hl hist) (repeat nil_slice n).
+Proof. induction n; cbn [repeat]; constructor; auto. now left. Qed.
+
+Lemma Forall_set_nth {A} (P : A -> Prop) n x l : Forall P l -> P x -> Forall P (set_nth n x l).
+Proof.
+  intros H Hx. revert n. induction H as [|y l Hy Hl IH]; intros n; cbn [set_nth].
+  destruct n; constructor. destruct n; constructor; auto.
+Qed.
+
+Lemma sprot_fr h hist h' hist' s : fr h hist h' hist' -> sprot (length h) hist s -> sprot (length h') hist' s.
+Proof. intros [_ F] [E|P]. now left. right. now apply F. Qed.
+
+Lemma rprot_fr h hist h' hist' r : fr h hist h' hist' -> rprot (length h) hist r -> rprot (length h') hist' r.
+Proof.
+  intros F H. unfold rprot in *. eapply Forall_impl; [|exact H].
+  intros kv Hkv. eapply Forall_impl; [|exact Hkv]. intros s. now apply sprot_fr.
+Qed.
+
+Lemma cp_same h hist r (m : dmsg) : wfh h hist -> mprot (length h) hist m -> rprot (length h) hist r ->
+  fr h hist h hist /\ wfh h hist /\ rprot (length h) hist r /\ mprot (length h) hist m /\
+  (forall c, @None dmsg = Some c -> mprot (length h) hist c).
+Proof. intros W M R. split; [apply fr_refl|]. split; auto. split; auto. split; auto. discriminate. Qed.
+
+Lemma complete_pack_ok h hist r m :
+  wfh h hist -> mprot (length h) hist m -> rprot (length h) hist r ->
+  forall h' r' m' cm, complete_pack h r m = (h', r', m', cm) ->
+  fr h hist h' hist /\ wfh h' hist /\ rprot (length h') hist r' /\ mprot (length h') hist m' /\
+  (forall c, cm = Some c -> mprot (length h') hist c).
+Proof.
+  intros W M R h' r' m' cm. unfold complete_pack.
+  set (sum := N.to_nat (m_sum (d_hdr m))). set (id := m_id (d_hdr m)). set (seq := N.to_nat (m_no (d_hdr m))).
+  destruct (sum =? 0).
+  { intros H. injection H as <- <- <- <-. apply cp_same; auto. }
+  set (r1 := if seq =? 1 then rec_set r id (repeat nil_slice sum) else r).
+  assert (rprot (length h) hist r1) as R1.
+  { unfold r1. destruct (seq =? 1); auto. apply rprot_set; auto. apply sprot_repeat_nil. }
+  set (slots := match rec_get r1 id with Some s => s | None => [] end).
+  assert (Forall (sprot (length h) hist) slots) as S1.
+  { unfold slots. destruct (rec_get r1 id) eqn:G. eapply rprot_get; eauto. constructor. }
+  destruct ((seq <? 1) || (length slots <? seq)).
+  { intros H. injection H as <- <- <- <-. apply cp_same; auto. }
+  set (slots' := set_nth (seq - 1) (d_body m) slots).
+  assert (Forall (sprot (length h) hist) slots') as S2.
+  { apply Forall_set_nth; auto. right. apply M. }
+  assert (rprot (length h) hist (rec_set r1 id slots')) as R2 by (apply rprot_set; auto).
+  assert (rprot (length h) hist (rec_del (rec_set r1 id slots') id)) as R3 by (apply rprot_del; exact R2).
+  destruct (received slots' =? sum).
+  - unfold alloc. set (data := flat_map (deref h) (firstn sum slots')).
+    intros H. injection H as <- <- <- <-.
+    pose proof (fr_alloc h hist data) as F.
+    assert (prot (length (h ++ [data])) hist (mkS (length h) 0 (length data) (length data))) as Pd.
+    { destruct W as (W0 & Wid & _). rewrite app_length. cbn [length]. split; [|split]; cbn [s_id]; lia. }
+    destruct M as (M1 & M2 & M3). destruct F as [FL F].
+    split; [split; auto|]. split; [now apply wfh_grow|].
+    split; [eapply rprot_fr; [split; [exact FL|exact F]|exact R3]|].
+    split; [|intros c Hc; injection Hc as <-]; (split; [|split]); cbn [d_raw d_body d_bcd]; auto; apply F; auto.
+  - intros H. injection H as <- <- <- <-. apply cp_same; auto.
+Qed.
+
+Lemma parse_loop_ok msgs : forall h hist r, wfh h hist -> rprot (length h) hist r ->
+  (forall m, In m msgs -> mprot (length h) hist m) ->
+  forall h2 r2 out, parse_loop h r msgs = (h2, r2, out) ->
+  fr h hist h2 hist /\ wfh h2 hist /\ rprot (length h2) hist r2 /\
+  forall m, In m out -> mprot (length h2) hist m.
+Proof.
+  induction msgs as [|m t IH]; intros h hist r W R M h2 r2 out; cbn [parse_loop].
+  - intros H. injection H as <- <- <-. split; [apply fr_refl|split; [exact W|split; [exact R|intros m []]]].
+  - destruct (complete_pack h r m) as [[[h1 r1] m'] cm] eqn:C.
+    destruct (parse_loop h1 r1 t) as [[h2' r2'] out'] eqn:P.
+    intros H. injection H as <- <- <-.
+    destruct (complete_pack_ok h hist r m W (M m (or_introl eq_refl)) R _ _ _ _ C) as (F1 & W1 & R1 & M1 & Mc).
+    destruct (IH h1 hist r1 W1 R1) with (h2 := h2') (r2 := r2') (out := out') as (F2 & W2 & R2 & M2); auto.
+    { intros m0 Hm0. eapply mprot_fr; [exact F1|]. apply M. now right. }
+    split; [eapply fr_trans; eauto|split; [exact W2|split; [exact R2|]]].
+    intros m0 [<-|Hm0].
+    + eapply mprot_fr; [exact F2|exact M1].
+    + apply in_app_or in Hm0. destruct Hm0 as [Hm0|Hm0]; auto.
+      destruct cm as [c|]; [|destruct Hm0]. destruct Hm0 as [<-|[]].
+      eapply mprot_fr; [exact F2|]. now apply Mc.
+Qed.
+
+(* ================= the connection ================= *)
+Definition inv (st : pst) : Prop :=
+  wfh (p_heap st) (p_hist st) /\ rprot (length (p_heap st)) (p_hist st) (p_rec st).
+
+Lemma inv_init bufsz : inv (init bufsz).
+Proof.
+  split; cbn [init p_heap p_hist p_rec]. split; [|split]; cbn; auto. constructor.
+Qed.
+
+Lemma step_ok bufsz st e : inv st ->
+  fr (p_heap st) (p_hist st) (p_heap (o_st (step cur bufsz st e))) (p_hist (o_st (step cur bufsz st e))) /\
+  inv (o_st (step cur bufsz st e)) /\
+  forall m, In m (o_msgs (step cur bufsz st e)) ->
+    mprot (length (p_heap (o_st (step cur bufsz st e)))) (p_hist (o_st (step cur bufsz st e))) m.
+Proof.
+  intros [W R]. destruct e as [data0 force newcap|]; cbn [step].
+  - set (data := firstn bufsz data0).
+    set (h0 := store (p_heap st) rbuf 0 data).
+    set (eff := mkS rbuf 0 (length data) bufsz).
+    assert (fr (p_heap st) (p_hist st) h0 (p_hist st)) as F0 by apply fr_store_rbuf.
+    assert (wfh h0 (p_hist st)) as W0 by now apply wfh_store.
+    destruct (unpack_ok h0 (p_hist st) eff force newcap W0) as (F1 & W1 & M1).
+    set (u := unpack cur h0 (p_hist st) eff force newcap) in *.
+    destruct (parse_loop (u_heap u) (p_rec st) (u_msgs u)) as [[h2 r2] out] eqn:P.
+    cbn [o_st o_msgs p_heap p_hist p_rec].
+    assert (rprot (length (u_heap u)) (u_hist u) (p_rec st)) as R1.
+    { eapply rprot_fr; [|exact R]. eapply fr_trans; eauto. }
+    destruct (parse_loop_ok _ _ _ _ W1 R1 M1 _ _ _ P) as (F2 & W2 & R2 & M2).
+    split; [eapply fr_trans; [exact F0|eapply fr_trans; eauto]|]. split; [split; auto|auto].
+  - cbn [o_st o_msgs p_heap p_hist p_rec]. unfold clear. cbn [s_id s_off s_len rbuf].
+    set (h1 := store (p_heap st) 0 0 (repeat 0%N bufsz)).
+    assert (fr (p_heap st) (p_hist st) h1 (p_hist st)) as F1 by apply fr_store_rbuf.
+    assert (fr h1 (p_hist st) (store h1 (s_id (p_hist st)) (s_off (p_hist st)) (repeat 0%N (s_len (p_hist st)))) (p_hist st)) as F2
+      by (apply fr_store_hist; apply le_n).
+    split; [eapply fr_trans; eauto|]. split; [|intros m []].
+    split. apply wfh_store. now apply wfh_store. constructor.
+Qed.
+
+Definition stepf (bufsz : nat) (st : pst) (e : ev) : pst := o_st (step cur bufsz st e).
+
+Lemma run_from_ok bufsz evs : forall st, inv st ->
+  fr (p_heap st) (p_hist st) (p_heap (fold_left (stepf bufsz) evs st)) (p_hist (fold_left (stepf bufsz) evs st)) /\
+  inv (fold_left (stepf bufsz) evs st).
+Proof.
+  induction evs as [|e t IH]; intros st I; cbn [fold_left].
+  - split; auto. apply fr_refl.
+  - destruct (step_ok bufsz st e I) as (F & I1 & _). destruct (IH _ I1) as [F2 I2].
+    split; auto. eapply fr_trans; eauto.
+Qed.
+
+Lemma run_stepf bufsz evs : run cur bufsz evs = fold_left (stepf bufsz) evs (init bufsz).
+Proof. reflexivity. Qed.
+
+Lemma firstn_split {A} (l : list A) a b : firstn (a + b) l = firstn a l ++ firstn b (skipn a l).
+Proof.
+  revert l. induction a as [|a IH]; intros l; cbn [plus firstn skipn app]; auto.
+  destruct l as [|x l]. now rewrite firstn_nil. cbn [firstn skipn app]. now rewrite IH.
+Qed.
+
+Lemma firstn_S_nth {A} (l : list A) k e : nth_error l k = Some e -> firstn (S k) l = firstn k l ++ [e].
+Proof.
+  revert l. induction k as [|k IH]; intros [|x l] H; cbn [nth_error] in H; try discriminate.
+  injection H as <-. reflexivity. cbn [firstn app]. f_equal. now apply IH.
+Qed.
+
+Lemma inv_state_at bufsz evs j : inv (state_at cur bufsz evs j).
+Proof. unfold state_at. rewrite run_stepf. apply run_from_ok. apply inv_init. Qed.
+
+Lemma state_at_S bufsz evs k e : nth_error evs k = Some e ->
+  state_at cur bufsz evs (S k) = o_st (step cur bufsz (state_at cur bufsz evs k) e).
+Proof.
+  intros H. unfold state_at. rewrite (firstn_S_nth _ _ _ H), !run_stepf, fold_left_app. reflexivity.
+Qed.
+
+Lemma state_at_add bufsz evs a b :
+  state_at cur bufsz evs (a + b) = fold_left (stepf bufsz) (firstn b (skipn a evs)) (state_at cur bufsz evs a).
+Proof. unfold state_at. now rewrite firstn_split, !run_stepf, fold_left_app. Qed.
+
+(* a message handed out by event k is protected in every later state, and every later state
+   shows the content it had right after event k *)
+Theorem delivered_protected bufsz evs k m : delivered_at cur bufsz evs k m ->
+  forall j, S k <= j ->
+  mprot (length (p_heap (state_at cur bufsz evs j))) (p_hist (state_at cur bufsz evs j)) m /\
+  content (p_heap (state_at cur bufsz evs j)) m = content (p_heap (state_at cur bufsz evs (S k))) m.
+Proof.
+  intros (e & Hn & Hin) j Hj.
+  destruct (step_ok bufsz _ e (inv_state_at bufsz evs k)) as (_ & I1 & M1).
+  specialize (M1 m Hin). rewrite <- (state_at_S _ _ _ _ Hn) in M1, I1.
+  replace j with (S k + (j - S k)) by lia.
+  rewrite state_at_add.
+  destruct (run_from_ok bufsz (firstn (j - S k) (skipn (S k) evs)) _ I1) as [[_ F] _].
+  destruct M1 as (A & B & C).
+  destruct (F _ A) as [A1 A2]. destruct (F _ B) as [B1 B2]. destruct (F _ C) as [C1 C2].
+  split. split; [|split]; auto. unfold content. now rewrite A2, B2, C2.
+Qed.
+
+(* ================= value-level content ================= *)
+Lemma deref_sub_slice h s i j : i <= j -> j <= s_len s ->
+  deref h (sub_slice s i j) = firstn (j - i) (skipn i (deref h s)).
+Proof.
+  intros Hij Hj. unfold deref. cbn [sub_slice s_id s_off s_len].
+  apply list_ext. intros k. rewrite !nth_error_window.
+  destruct (k <? j - i) eqn:E; auto. apply Nat.ltb_lt in E.
+  replace (i + k <? s_len s) with true by (symmetry; apply Nat.ltb_lt; lia).
+  f_equal. lia.
+Qed.
+
+Lemma deref_fresh h c : deref (h ++ [c]) (mkS (length h) 0 (length c) (length c)) = c.
+Proof. unfold deref. cbn [s_id s_off s_len]. rewrite cells_alloc_new. cbn [skipn]. apply firstn_all. Qed.
+
+Lemma nth_delim_bound l : forall k i0 i, nth_delim l k i0 = Some i -> i0 <= i < i0 + length l.
+Proof.
+  induction l as [|b t IH]; intros k i0 i; cbn [nth_delim]. discriminate.
+  destruct (b =? 126)%N.
+  - destruct k as [|[|k]]; try discriminate.
+    + intros H. injection H as <-. cbn [length]. lia.
+    + intros H. apply IH in H. cbn [length]. lia.
+  - intros H. apply IH in H. cbn [length]. lia.
+Qed.
+
+Lemma frame_end_le l e : frame_end l = Some e -> 2 <= e <= length l.
+Proof.
+  unfold frame_end. destruct ((2 <? length l) && (hd 0%N l =? 126)%N); try discriminate.
+  destruct (nth_delim (tl l) 1 1) as [i|] eqn:D; try discriminate.
+  intros H. injection H as <-. apply nth_delim_bound in D.
+  destruct l as [|x l]; cbn [tl length] in *; lia.
+Qed.
+
+Lemma Nadd_sub_l (a b : N) : (a + b - a)%N = b.
+Proof. lia. Qed.
+
+Lemma decode_inv2 d m : decode d = Ok m ->
+  exists p, unescape d = Ok p /\ hdr_end m + N.to_nat (m_len m) + 1 = length p
+            /\ hdr_start m + hdr_plen m <= hdr_end m
+            /\ m_body m = firstn (N.to_nat (m_len m)) (skipn (hdr_end m) p)
+            /\ m_bcd m = firstn (hdr_plen m) (skipn (hdr_start m) p).
+Proof.
+  unfold decode. destruct (unescape d) as [p| |]; cbn [bind]; try discriminate.
+  intros H. exists p. split; auto.
+  destruct (negb (xor_all p =? 0)%N); [discriminate|].
+  destruct (len p <? 4)%N; [discriminate|].
+  set (attr := be16 (at_ p 2) (at_ p 3)) in *.
+  set (ver := N.land (N.shiftr attr 14) 1) in *.
+  set (frag := N.land (N.shiftr attr 13) 1) in *.
+  set (blen := N.land attr 1023) in *.
+  destruct (len p <? _)%N; [discriminate|].
+  destruct ((frag =? 1)%N && _); [discriminate|].
+  match type of H with (if negb ?c then _ else _) = _ => destruct c eqn:C end; cbn [negb] in H; [|discriminate].
+  apply (f_equal (fun r => match r with Ok x => x | _ => m end)) in H. cbv beta iota in H. rewrite <- H. clear H.
+  unfold hdr_end, hdr_start, hdr_plen, sub. cbn [m_ver m_frag m_len m_body m_bcd].
+  apply N.eqb_eq in C. unfold len in C.
+  rewrite !Nadd_sub_l.
+  destruct (ver =? 1)%N, (frag =? 1)%N; (split; [lia|split; [lia|split; reflexivity]]).
+Qed.
+
+Definition vok (h : heap) (m : dmsg) : Prop :=
+  decode (deref h (d_raw m)) = Ok (d_hdr m) /\ deref h (d_body m) = m_body (d_hdr m) /\
+  deref h (d_bcd m) = m_bcd (d_hdr m) /\ d_complete m = false.
+
+Lemma vok_fr h hist h' hist' m : fr h hist h' hist' -> mprot (length h) hist m -> vok h m -> vok h' m.
+Proof.
+  intros [_ F] (A & B & C) (V1 & V2 & V3 & V4).
+  destruct (F _ A) as [_ A2]. destruct (F _ B) as [_ B2]. destruct (F _ C) as [_ C2].
+  unfold vok. rewrite A2, B2, C2. auto.
+Qed.
+
+Lemma removelast_firstn {A} (l : list A) : removelast l = firstn (length l - 1) l.
+Proof. rewrite removelast_firstn_len, Nat.sub_1_r. reflexivity. Qed.
+
+Lemma decode_mem_vok h raw h' m : decode_mem h raw = Ok (h', m) ->
+  s_id raw < length h -> length (deref h raw) = s_len raw -> vok h' m.
+Proof.
+  intros H Hid Hlen. unfold decode_mem in H.
+  destruct (decode (deref h raw)) as [m0| |] eqn:D; try discriminate.
+  destruct (decode_inv2 _ _ D) as (p & U & L1 & L2 & Eb & Ec).
+  destruct (has7d (deref h raw)) eqn:H7.
+  - rewrite U in H. unfold alloc in H. injection H as <- <-.
+    unfold vok. cbn [d_hdr d_raw d_body d_bcd d_complete].
+    rewrite deref_alloc by exact Hid. split; [exact D|].
+    rewrite !deref_sub_slice by (cbn [s_len]; lia). rewrite deref_fresh.
+    replace (hdr_end m0 + N.to_nat (m_len m0) - hdr_end m0) with (N.to_nat (m_len m0)) by lia.
+    replace (hdr_start m0 + hdr_plen m0 - hdr_start m0) with (hdr_plen m0) by lia.
+    auto.
+  - injection H as <- <-.
+    destruct (unescape_no7d _ _ H7 U) as [Ep L3].
+    unfold vok. cbn [d_hdr d_raw d_body d_bcd d_complete]. split; [exact D|].
+    assert (deref h (sub_slice raw 1 (s_len raw - 1)) = p) as Hp.
+    { rewrite deref_sub_slice by lia. rewrite Ep.
+      rewrite removelast_firstn.
+      destruct (deref h raw) as [|x d]; cbn [length] in *. lia.
+      cbn [tl skipn]. f_equal. lia. }
+    rewrite !(deref_sub_slice h (sub_slice raw 1 (s_len raw - 1))) by (cbn [sub_slice s_len]; lia). rewrite Hp.
+    replace (hdr_end m0 + N.to_nat (m_len m0) - hdr_end m0) with (N.to_nat (m_len m0)) by lia.
+    replace (hdr_start m0 + hdr_plen m0 - hdr_start m0) with (hdr_plen m0) by lia.
+    auto.
+Qed.
+
+Lemma scan_vok fuel : forall h hist acc, wfh h hist ->
+  (forall m, In m acc -> mprot (length h) hist m /\ vok h m) ->
+  forall m, In m (u_msgs (scan cur fuel h hist acc)) -> vok (u_heap (scan cur fuel h hist acc)) m.
+Proof.
+  induction fuel as [|fuel IH]; intros h hist acc W Hacc; cbn [scan].
+  - cbn [u_heap u_msgs]. intros m Hm. now apply Hacc.
+  - destruct (frame_end (deref h hist)) as [e|] eqn:FE.
+    2:{ cbn [u_heap u_msgs]. intros m Hm. now apply Hacc. }
+    assert (s_id hist <> 0) as Hid.
+    { intros E0. destruct W as (_ & _ & W3). destruct (W3 E0) as [_ L0].
+      apply frame_end_some in FE. pose proof (deref_length_le h hist). lia. }
+    pose proof (frame_end_le _ _ FE) as Le. pose proof (deref_length_le h hist) as Ld.
+    destruct (decode_mem h (sub_slice hist 0 e)) as [[h' m]| |] eqn:D.
+    + pose proof (decode_mem_fr _ hist _ _ _ D) as F1.
+      pose proof (decode_mem_wfh _ hist _ _ _ D W) as W1.
+      pose proof (decode_mem_len _ _ _ _ D) as L1.
+      assert (vok h' m) as Vm.
+      { eapply decode_mem_vok; [exact D| |].
+        - cbn [sub_slice s_id]. apply W.
+        - rewrite deref_sub_slice by lia. cbn [sub_slice s_len skipn]. rewrite firstn_length. lia. }
+      destruct W as (W0 & Wid & W3).
+      destruct (e =? s_len hist).
+      * cbn [u_heap u_msgs]. intros m0 Hm0. apply in_app_or in Hm0. destruct Hm0 as [Hm0|[<-|[]]]; auto.
+        destruct (Hacc _ Hm0) as [P V]. eapply vok_fr; eauto.
+      * apply IH. now apply wfh_from.
+        assert (fr h hist h' (slice_from hist e)) as F2 by (eapply fr_trans; [exact F1|apply fr_advance]).
+        intros m0 Hm0. apply in_app_or in Hm0. destruct Hm0 as [Hm0|[<-|[]]].
+        -- destruct (Hacc _ Hm0) as [P V]. split. eapply mprot_fr; eauto. eapply vok_fr; eauto.
+        -- split; auto. eapply decode_mem_mprot; [exact D|exact W0|exact Wid|].
+           split; [|split]; cbn [slice_from sub_slice s_id s_off s_len]; [exact Hid|lia|intros _; lia].
+    + cbn [u_heap u_msgs]. intros m Hm. now apply Hacc.
+    + cbn [u_heap u_msgs]. intros m Hm. now apply Hacc.
+Qed.
+
+Lemma unpack_vok h hist eff force newcap : wfh h hist ->
+  forall m, In m (u_msgs (unpack cur h hist eff force newcap)) -> vok (u_heap (unpack cur h hist eff force newcap)) m.
+Proof.
+  intros W. unfold unpack.
+  destruct (fast_cond hist (deref h eff)).
+  - cbn [cur v_clone]. unfold clone, alloc.
+    set (d := deref h eff).
+    destruct (decode_mem (h ++ [d]) (mkS (length h) 0 (length d) (length d))) as [[h2 m]| |] eqn:D;
+      cbn [u_heap u_msgs].
+    + intros mx [<-|[]]. eapply decode_mem_vok; [exact D| |].
+      * cbn [s_id]. rewrite app_length. cbn. lia.
+      * rewrite deref_fresh. reflexivity.
+    + intros mx [].
+    + intros mx [].
+  - destruct (append h hist (deref h eff) force newcap) as [h1 hist1] eqn:A.
+    destruct (append_fr _ _ _ _ _ _ _ W A) as [F1 W1].
+    apply scan_vok; auto. intros m [].
+Qed.
+
+(* what holds of every message handed out by parse (the packet that completes a transfer shows
+   the merged body, the completed message's TerminalData is that body) *)
+Definition ook (h : heap) (m : dmsg) : Prop :=
+  deref h (d_bcd m) = m_bcd (d_hdr m) /\
+  (d_complete m = false -> decode (deref h (d_raw m)) = Ok (d_hdr m)) /\
+  (m_sum (d_hdr m) = 0%N -> deref h (d_body m) = m_body (d_hdr m)) /\
+  (d_complete m = true -> d_raw m = d_body m).
+
+Lemma vok_ook h m : vok h m -> ook h m.
+Proof. intros (A & B & C & D). split; [|split; [|split]]; auto. rewrite D. discriminate. Qed.
+
+Lemma ook_fr h hist h' hist' m : fr h hist h' hist' -> mprot (length h) hist m -> ook h m -> ook h' m.
+Proof.
+  intros [_ F] (A & B & C) (V1 & V2 & V3 & V4).
+  destruct (F _ A) as [_ A2]. destruct (F _ B) as [_ B2]. destruct (F _ C) as [_ C2].
+  unfold ook. rewrite A2, B2, C2. auto.
+Qed.
+
+Lemma complete_pack_ook h hist r m : wfh h hist -> mprot (length h) hist m -> vok h m ->
+  forall h' r' m' cm, complete_pack h r m = (h', r', m', cm) ->
+  ook h' m' /\ (forall c, cm = Some c -> ook h' c).
+Proof.
+  intros W M V h' r' m' cm. unfold complete_pack.
+  set (sum := N.to_nat (m_sum (d_hdr m))).
+  destruct (sum =? 0) eqn:E0.
+  { intros H. injection H as <- <- <- <-. split; [now apply vok_ook|discriminate]. }
+  match goal with |- context [if ?c then _ else _] => destruct c end.
+  { intros H. injection H as <- <- <- <-. split; [now apply vok_ook|discriminate]. }
+  match goal with |- context [if ?c then _ else _] => destruct c end.
+  - unfold alloc. match goal with |- context [h ++ [?d]] => set (data := d) end.
+    intros H. injection H as <- <- <- <-.
+    destruct (fr_alloc h hist data) as [_ F]. destruct M as (M1 & M2 & M3).
+    destruct (F _ M1) as [_ A2]. destruct (F _ M3) as [_ C2].
+    destruct V as (V1 & V2 & V3 & V4).
+    assert (m_sum (d_hdr m) <> 0%N) as Hs.
+    { intros Z. unfold sum in E0. rewrite Z in E0. discriminate. }
+    split; [|intros c Hc; injection Hc as <-]; unfold ook; cbn [d_hdr d_raw d_body d_bcd d_complete];
+      rewrite ?A2, ?C2; (split; [|split; [|split]]); auto; try discriminate; try contradiction.
+  - intros H. injection H as <- <- <- <-. split; [now apply vok_ook|discriminate].
+Qed.
+
+Lemma parse_loop_ook msgs : forall h hist r, wfh h hist -> rprot (length h) hist r ->
+  (forall m, In m msgs -> mprot (length h) hist m /\ vok h m) ->
+  forall h2 r2 out, parse_loop h r msgs = (h2, r2, out) -> forall m, In m out -> ook h2 m.
+Proof.
+  induction msgs as [|m t IH]; intros h hist r W R M h2 r2 out; cbn [parse_loop].
+  - intros H. injection H as <- <- <-. intros m [].
+  - destruct (complete_pack h r m) as [[[h1 r1] m'] cm] eqn:C.
+    destruct (parse_loop h1 r1 t) as [[h2' r2'] out'] eqn:P.
+    intros H. injection H as <- <- <-.
+    destruct (M m (or_introl eq_refl)) as [Mm Vm].
+    destruct (complete_pack_ok h hist r m W Mm R _ _ _ _ C) as (F1 & W1 & R1 & M1 & Mc).
+    destruct (complete_pack_ook h hist r m W Mm Vm _ _ _ _ C) as (O1 & Oc).
+    assert (forall m0, In m0 t -> mprot (length h1) hist m0 /\ vok h1 m0) as Mt.
+    { intros m0 Hm0. destruct (M m0 (or_intror Hm0)) as [A B]. split. eapply mprot_fr; eauto. eapply vok_fr; eauto. }
+    destruct (parse_loop_ok t h1 hist r1 W1 R1 (fun m0 H0 => proj1 (Mt m0 H0)) _ _ _ P) as (F2 & _).
+    intros m0 [<-|Hm0].
+    + eapply ook_fr; eauto.
+    + apply in_app_or in Hm0. destruct Hm0 as [Hm0|Hm0].
+      * destruct cm as [c|]; [|destruct Hm0]. destruct Hm0 as [<-|[]].
+        eapply ook_fr; [exact F2| |]; auto.
+      * eapply IH; [exact W1|exact R1|exact Mt|exact P|exact Hm0].
+Qed.
+
+Lemma step_ook bufsz st e : inv st ->
+  forall m, In m (o_msgs (step cur bufsz st e)) -> ook (p_heap (o_st (step cur bufsz st e))) m.
+Proof.
+  intros [W R]. destruct e as [data0 force newcap|]; cbn [step]; [|intros m []].
+  set (data := firstn bufsz data0).
+  set (h0 := store (p_heap st) rbuf 0 data).
+  set (eff := mkS rbuf 0 (length data) bufsz).
+  assert (fr (p_heap st) (p_hist st) h0 (p_hist st)) as F0 by apply fr_store_rbuf.
+  assert (wfh h0 (p_hist st)) as W0 by now apply wfh_store.
+  destruct (unpack_ok h0 (p_hist st) eff force newcap W0) as (F1 & W1 & M1).
+  pose proof (unpack_vok h0 (p_hist st) eff force newcap W0) as V1.
+  set (u := unpack cur h0 (p_hist st) eff force newcap) in *.
+  destruct (parse_loop (u_heap u) (p_rec st) (u_msgs u)) as [[h2 r2] out] eqn:P.
+  cbn [o_st o_msgs p_heap p_hist p_rec].
+  assert (rprot (length (u_heap u)) (u_hist u) (p_rec st)) as R1.
+  { eapply rprot_fr; [|exact R]. eapply fr_trans; eauto. }
+  eapply parse_loop_ook; [exact W1|exact R1| |exact P]. intros m Hm. split; auto.
+Qed.
+
+Theorem delivered_ook bufsz evs k m : delivered_at cur bufsz evs k m ->
+  forall j, S k <= j -> ook (p_heap (state_at cur bufsz evs j)) m.
+Proof.
+  intros D j Hj. destruct (delivered_protected _ _ _ _ D j Hj) as [_ Ec].
+  destruct D as (e & Hn & Hin).
+  pose proof (step_ook bufsz _ e (inv_state_at bufsz evs k) m Hin) as O.
+  rewrite <- (state_at_S _ _ _ _ Hn) in O.
+  unfold content in Ec. injection Ec as E1 E2 E3.
+  destruct O as (O1 & O2 & O3 & O4). unfold ook. rewrite E1, E2, E3. auto.
+Qed.
+
+Lemma with_bcd_same m : with_bcd m (m_bcd m) = m.
+Proof. destruct m; reflexivity. Qed.
+
+Theorem reply_own_bytes bufsz evs k m : delivered_at cur bufsz evs k m ->
+  forall j, S k <= j -> forall rid ps body,
+  reply_at (p_heap (state_at cur bufsz evs j)) m rid ps body = encode (d_hdr m) rid ps body.
+Proof.
+  intros D j Hj rid ps body. destruct (delivered_ook _ _ _ _ D j Hj) as (O1 & _).
+  unfold reply_at. now rewrite O1, with_bcd_same.
+Qed.
+
+(* ================= reassembly ================= *)
+Lemma rec_get_set r id v : rec_get (rec_set r id v) id = Some v.
+Proof. unfold rec_set. cbn [rec_get]. now rewrite N.eqb_refl. Qed.
+
+Lemma nth_set_nth {A} (d x : A) l : forall n, n < length l -> nth n (set_nth n x l) d = x.
+Proof.
+  induction l as [|y l IH]; intros n H; cbn [length] in H. lia.
+  destruct n; cbn [set_nth nth]; auto. apply IH. lia.
+Qed.
+
+(* the packet's Body slice is what completePack stores in the slot of its number *)
+Lemma complete_pack_stores h r m h' r' m' : complete_pack h r m = (h', r', m', None) ->
+  let sum := N.to_nat (m_sum (d_hdr m)) in
+  let id := m_id (d_hdr m) in
+  let seq := N.to_nat (m_no (d_hdr m)) in
+  let r1 := if seq =? 1 then rec_set r id (repeat nil_slice sum) else r in
+  forall slots, sum <> 0 -> rec_get r1 id = Some slots -> 1 <= seq <= length slots ->
+  h' = h /\ m' = m /\ exists slots', rec_get r' id = Some slots' /\ nth (seq - 1) slots' nil_slice = d_body m.
+Proof.
+  cbv zeta. unfold complete_pack. intros H slots Hs G Hseq.
+  destruct (N.to_nat (m_sum (d_hdr m)) =? 0) eqn:E0. apply Nat.eqb_eq in E0; contradiction.
+  rewrite G in H.
+  replace ((N.to_nat (m_no (d_hdr m)) <? 1) || (length slots <? N.to_nat (m_no (d_hdr m)))) with false in H.
+  2:{ symmetry. apply Bool.orb_false_iff. split; apply Nat.ltb_ge; lia. }
+  match type of H with context [if ?c then _ else _] => destruct c end.
+  - unfold alloc in H. discriminate.
+  - injection H as <- <- <-. split; auto. split; auto. eexists. split. apply rec_get_set.
+    apply nth_set_nth. lia.
+Qed.
+
+(* the completed message's body (and TerminalData) is a fresh array holding the concatenation
+   of what the stored Body slices denote at that moment; the packet that completed the transfer
+   shows the same body (it shares its JTMessage) *)
+Lemma complete_pack_merged h r m h' r' m' cm : complete_pack h r m = (h', r', m', Some cm) ->
+  let sum := N.to_nat (m_sum (d_hdr m)) in
+  let id := m_id (d_hdr m) in
+  let seq := N.to_nat (m_no (d_hdr m)) in
+  let r1 := if seq =? 1 then rec_set r id (repeat nil_slice sum) else r in
+  exists slots, rec_get r1 id = Some slots /\
+    deref h' (d_body cm) = flat_map (deref h) (firstn sum (set_nth (seq - 1) (d_body m) slots)) /\
+    d_raw cm = d_body cm /\ d_body m' = d_body cm /\ d_complete cm = true /\ d_hdr cm = d_hdr m.
+Proof.
+  cbv zeta. unfold complete_pack.
+  destruct (N.to_nat (m_sum (d_hdr m)) =? 0). discriminate.
+  match goal with |- context [rec_get ?r1 ?id] => destruct (rec_get r1 id) as [slots|] eqn:G end.
+  - match goal with |- context [if ?c then _ else _] => destruct c end. discriminate.
+    match goal with |- context [if ?c then _ else _] => destruct c end; [|discriminate].
+    unfold alloc. intros H. injection H as <- <- <- <-. exists slots. split; auto.
+    cbn [d_body d_raw d_complete d_hdr]. rewrite deref_fresh. auto 6.
+  - match goal with |- context [if ?c then _ else _] => destruct c eqn:E end. discriminate.
+    (* no record: the slot table is empty, nothing can be stored *)
+    exfalso. apply Bool.orb_false_iff in E. destruct E as [E1 E2].
+    apply Nat.ltb_ge in E1. apply Nat.ltb_ge in E2. cbn [length] in E2. lia.
+Qed.
+
+(* a stored Body slice keeps its content whatever happens later on the connection *)
+Theorem slots_stable bufsz st evs id slots s : inv st ->
+  rec_get (p_rec st) id = Some slots -> In s slots ->
+  deref (p_heap (fold_left (stepf bufsz) evs st)) s = deref (p_heap st) s.
+Proof.
+  intros I G Hs. destruct (run_from_ok bufsz evs st I) as [[_ F] _]. destruct I as [_ R].
+  pose proof (rprot_get _ _ _ _ _ R G) as Fs. rewrite Forall_forall in Fs.
+  destruct (Fs s Hs) as [E|P].
+  - unfold deref. rewrite E. reflexivity.
+  - now apply F.
+Qed.
+
+Lemma inv_reachable bufsz evs : inv (run cur bufsz evs).
+Proof. rewrite run_stepf. apply run_from_ok. apply inv_init. Qed.
+
+(* ================= the statements of Props/C09.v ================= *)
+Theorem stable bufsz evs k m : delivered_at cur bufsz evs k m ->
+  forall j, S k <= j ->
+  content (p_heap (state_at cur bufsz evs j)) m = content (p_heap (state_at cur bufsz evs (S k))) m.
+Proof. intros D j Hj. apply (delivered_protected _ _ _ _ D j Hj). Qed.
+
+Theorem never_changes bufsz evs : ~ changes cur bufsz evs.
+Proof. intros (k & m & j & D & Hj & Hc). apply Hc. now apply stable. Qed.
+
+(* the two repaired mechanisms, by computation on the memory model *)
+Lemma refuted_alias : changes prefix_fastpath_alias 1023 ex_alias_evs.
+Proof.
+  exists 0, (delivered_nth prefix_fastpath_alias 1023 ex_alias_evs 0 0), 2.
+  split. { exists (Read ex_f1 false 0). split. reflexivity. vm_compute. left. reflexivity. }
+  split. lia. vm_compute. discriminate.
+Qed.
+
+Lemma refuted_alias_close : changes prefix_fastpath_alias 1023 ex_close_evs.
+Proof.
+  exists 0, (delivered_nth prefix_fastpath_alias 1023 ex_close_evs 0 0), 2.
+  split. { exists (Read ex_f1 false 0). split. reflexivity. vm_compute. left. reflexivity. }
+  split. lia. vm_compute. discriminate.
+Qed.
+
+Lemma refuted_reuse : changes prefix_history_reuse 1023 ex_reuse_evs.
+Proof.
+  exists 1, (delivered_nth prefix_history_reuse 1023 ex_reuse_evs 1 0), 3.
+  split. { exists (Read (skipn 5 ex_f1) false 64). split. reflexivity. vm_compute. left. reflexivity. }
+  split. lia. vm_compute. discriminate.
+Qed.
+
+(* on the current code the same histories deliver the frames and keep them *)
+Lemma ex_cur_alias :
+  map (fun j => content (p_heap (state_at cur 1023 ex_alias_evs j)) (delivered_nth cur 1023 ex_alias_evs 0 0)) [1; 2]
+  = [(ex_f1, [1; 2; 3]%N, m_bcd ex_hdr); (ex_f1, [1; 2; 3]%N, m_bcd ex_hdr)].
+Proof. vm_compute. reflexivity. Qed.
+
+Lemma ex_cur_reuse :
+  map (fun j => content (p_heap (state_at cur 1023 ex_reuse_evs j)) (delivered_nth cur 1023 ex_reuse_evs 1 0)) [2; 3]
+  = [(ex_f1, [1; 2; 3]%N, m_bcd ex_hdr); (ex_f1, [1; 2; 3]%N, m_bcd ex_hdr)].
+Proof. vm_compute. reflexivity. Qed.
+
+Lemma ex_delivered : delivered_at cur 1023 ex_alias_evs 0 (delivered_nth cur 1023 ex_alias_evs 0 0).
+Proof. exists (Read ex_f1 false 0). split. reflexivity. vm_compute. left. reflexivity. Qed.
+
+Theorem slots_stable_reachable bufsz evs later id slots s :
+  rec_get (p_rec (run cur bufsz evs)) id = Some slots -> In s slots ->
+  deref (p_heap (fold_left (fun st e => o_st (step cur bufsz st e)) later (run cur bufsz evs))) s
+  = deref (p_heap (run cur bufsz evs)) s.
+Proof. exact (slots_stable bufsz _ later id slots s (inv_reachable bufsz evs)). Qed.
